@@ -6,7 +6,10 @@ def run(ctx):
     return staticprop.run_static_property(
         ctx, "sort", "ill-sorted effect",
         "Sorts!CheckEff over the observed effect term: every BRANCH arm, loop body and inlined callee is checked, local sorts must be stable",
-        gen=(("Gen_C02.tla", 6), ("Gen_C05.tla", 2), ("Gen_C10.tla", 1)))
+        gen=(("Gen_C02.tla", 6), ("Gen_C05.tla", 2), ("Gen_C10.tla", 1), ("Gen_C07.tla", 1)),
+        # the catalogue observes through locals named r / q; the immediate letter r is itself an IL local of that name
+        # (riV -> "r"), so 'int64_t r = riV' clashes by construction of the generator, not of the compiler
+        keep=lambda p: not (p["id"].startswith("imm-") and p["id"].endswith("-r")))
 
 
 if __name__ == "__main__":
